@@ -22,6 +22,7 @@ package main
 import (
 	"fmt"
 	"math"
+	"strconv"
 	"strings"
 
 	"github.com/thanos-io/thanos/pkg/compact/downsample"
@@ -33,6 +34,9 @@ func init() {
 }
 
 func execC36(c *hlib.Ctx, tok []string) string {
+	if len(tok) > 0 && tok[0] == "o.block" {
+		return execBlock(c, tok, "C36")
+	}
 	out, cs := execDs(tok)
 	if cs == nil || len(tok) == 0 {
 		return out
@@ -212,6 +216,29 @@ func checkWindows(c *hlib.Ctx, ts []int64, vs []float64, r int64, lists [4][]pt)
 
 func genC36(c *hlib.Ctx) {
 	rr := c.R
+	// the block-level entry point Downsample() on real blocks: short, just above 32768 samples, long
+	for _, n := range []int{1000, 33500} {
+		c.Count("block:" + strconv.Itoa(n))
+		c.Do(fmt.Sprintf("o.block %d %d %s", rr.Intn(1<<30), n, []string{"gauge", "counter"}[rr.Intn(2)]), true)
+	}
+	for i := 0; i < c.N(0, 6); i++ {
+		n := []int{70000, 33000 + rr.Intn(3000), 5000 + rr.Intn(60000)}[i%3]
+		c.Count("block:thorough")
+		c.Do(fmt.Sprintf("o.block %d %d %s", rr.Intn(1<<30), n, []string{"gauge", "counter"}[rr.Intn(2)]), true)
+	}
+	// the entry point DownsampleRaw on long series: it decides the chunking itself (several chunks)
+	for i := 0; i < c.N(40, 1500); i++ {
+		r := resolutions[rr.Intn(len(resolutions))]
+		ts, vals := genLongSeries(c, r, rr.Chance(1, 3))
+		nc := tccRaw(ts, r)
+		c.Count("long-auto:chunks:" + bucket(nc))
+		field := samplesField(ts, vals)
+		c.Do(fmt.Sprintf("ds.raw auto %d %d %s", r, nc, field), true)
+		if rr.Chance(1, 4) {
+			c.Do(fmt.Sprintf("ds.read %d %d %s", r, nc, field), true)
+		}
+	}
+	defer func() { c.Dist["entry:DownsampleRaw(ds.read/level 1)"] = entryDownsampleRaw }()
 	n := c.N(1200, 30000)
 	for i := 0; i < n; i++ {
 		r := resolutions[rr.Intn(len(resolutions))]
